@@ -1068,10 +1068,11 @@ impl SetU64 {
                     let had_zero = p_remove(s.bits, a, 0);
                     // One draw, then scan upward to the first value that is usable:
                     // redrawing could loop forever when the generator is a pure
-                    // function of its arguments, and at most `cap + 65` values
-                    // are unusable.
+                    // function of its arguments, and at most `cap + 66` values
+                    // are unusable (the old placeholder `e` among them: it is
+                    // about to become a member).
                     let mut i: u64 = crate::rand::rand64(s.cap, s.bits);
-                    while i <= 64 || a.iter().any(|&v| v == i) {
+                    while i <= 64 || i == e || a.iter().any(|&v| v == i) {
                         i = i.wrapping_add(1);
                     }
                     s.bits = i;
